@@ -77,6 +77,7 @@ package utils
 // payload is read through the tee that feeds the hash; none of the helpers reports a bare io.EOF.
 //@ func (*UnsignedChunkReader) extractChunkSize
 //@   ensures {C12} [a-missing-size-line-is-not-a-clean-end] err != io.EOF
+//@   ensures {C20} [a-chunk-size-is-a-count] err == nil ==> ret0 >= 0
 //@ func (*UnsignedChunkReader) readAndSkip
 //@   ensures {C12} [a-cut-stream-is-not-a-clean-end] ret0 != io.EOF
 //@ func (*UnsignedChunkReader) validateChecksum
@@ -103,13 +104,16 @@ package utils
 //@   frame none
 //@ func (*ChunkReader) stashAndSkipHeader
 //@   ensures {C12} [not-a-clean-end] ret3 != io.EOF
+//@   ensures {C20} [no-size] ret0 == 0
 // the part of a header kept for the next read is a copy: the caller's buffer is overwritten by that read
 //@   ensures {C12} [the-stash-is-a-private-copy] !samearray(cr.stash, header) && len(cr.stash) == len(header)
 //@ func (*ChunkReader) handleRdrErr
 //@   ensures {C12} [not-a-clean-end] ret3 != io.EOF
+//@   ensures {C20} [no-size] ret0 == 0
 //@ func (*ChunkReader) parseChunkHeaderBytes
 //@   arith assumed
 //@   ensures {C12} [not-a-clean-end] ret3 != io.EOF
+//@   ensures {C20} [a-chunk-size-is-a-count] ret3 == nil ==> ret0 >= 0
 //@ func (*ChunkReader) checkSignature
 //@   ensures {C12} [not-a-clean-end] ret0 != io.EOF
 //@   at-return {C12} [nil-only-for-the-computed-signature] when ret0 == nil :: ensures old(cr.parsedSig) == result("hex.EncodeToString", 0) && called("utils.hmac256")
